@@ -103,7 +103,7 @@ class Sys(e1.TimedSys):
         held = [h.args[0] for h in self.held]
         acts = []
         for cl, name, ev in self.menu:
-            if ev == "r" and cl not in m.sent_before:
+            if ev[0] == "r" and cl not in m.sent_before:
                 continue
             acts.append(("msg", cl, name, ev))
         if any(h[0] != "msg" for h in held):
@@ -131,7 +131,8 @@ class Sys(e1.TimedSys):
         ann = self.prot.announcer
         if act[0] == "msg":
             _, cl, name, ev = act
-            if ev == "r":
+            uflag = not ev.endswith("u")  # SD unicast flag clear: the entries are ignored, the sender is still tracked
+            if ev[0] == "r":
                 sess = 1
                 self.step_reboot = (cl, {k[1] for k, v in m.last.items() if k[0] == cl and v == "subscribed"})
                 self._drop_all(cl)
@@ -144,6 +145,8 @@ class Sys(e1.TimedSys):
                 eg, counter, ep = SUBS[sk]
                 entries.append(("subscribe", self.sid, 1, 1, ttl, (counter << 16) | eg, (ep,), ()))
                 key = (cl, sk)
+                if not uflag:
+                    continue
                 if ttl == 0:
                     m.live.pop(key, None)
                     continue
@@ -157,7 +160,7 @@ class Sys(e1.TimedSys):
                 else:
                     m.live[key] = None if ttl == INF else now + ttl
                     self.expected_acks.append((cl, sk, ttl))
-            data = refcodec.sd_message(sess, entries, reboot=True, unicast=True)
+            data = refcodec.sd_message(sess, entries, reboot=True, unicast=uflag)
             self.prot.datagram_received(data, CL[cl], False)
         elif act[0] == "reject6":
             m.reject6 = act[1]
@@ -313,6 +316,8 @@ def configs(ctx):
                                   deviations=0, fine=1), ctx.pick(3, 5)))
     ident = [("C1", n, "n") for n in ("sub-a2", "stop-a", "sub-d2", "stop-d", "sub-b2")]
     out.append(("identity", dict(sid=sid, advs=(None, "next"), menu=ident, controls=(), deviations=0, fine=0), CLOSURE))
+    uf = [("C1", n, e) for n in ("sub-a2", "stop-a", "sub-c2") for e in ("n", "r", "nu", "ru")]
+    out.append(("C1-unicast-flag-clear", dict(sid=sid, advs=(None, "next"), menu=uf, controls=(), deviations=0, fine=0), CLOSURE))
     alias = [(c, n, "n") for c in ("C1", "C5", "C3", "C4") for n in ("sub-a2", "stop-a")] + [("C3", "sub-a2", "r"), ("C5", "stop-a", "r")]
     out.append(("aliased-subscriber-addresses", dict(sid=sid, advs=(None, "next"), menu=alias, controls=(), deviations=0,
                                                      fine=0), ctx.pick(5, 7)))
